@@ -237,12 +237,26 @@ pub fn run(ctx: &Ctx) -> Result<()> {
 						(bad, first)
 					}));
 				}
+				// ... while two more tasks stream bounding boxes from the same reader: every streamed tile must carry the content of its
+				// own coordinate (the payloads name their coordinates)
+				for t in 0..2u32 {
+					let reader = reader.clone();
+					hs.push(tokio::spawn(async move {
+						let mut bad = 0u64; let mut first = None;
+						for k in 0..6u32 { let (z, y0) = (7u8, (t * 6 + k) * 10); let bb = TileBBox::new(z, 0, y0, 127, y0 + 7).unwrap();
+							let items: Vec<(TileCoord3, Blob)> = reader.get_bbox_tile_stream(bb).await.collect().await;
+							if items.len() != 128 * 8 { bad += 1; if first.is_none() { first = Some(format!("stream over rows {y0}..{} of level 7 delivered {} tiles instead of 1024", y0 + 7, items.len())); } }
+							for (c, b) in &items { if b.as_slice() != format!("t{}/{}/{}", c.z, c.x, c.y).as_bytes() { bad += 1; if first.is_none() { first = Some(format!("stream: coordinate {}/{}/{} delivered with {:?}", c.z, c.x, c.y, String::from_utf8_lossy(b.as_slice()))); } } } }
+						(bad, first)
+					}));
+				}
 				let mut v = vec![]; for h in hs { v.push(h.await.unwrap_or((1, Some("task panicked".into())))); } v
 			});
 			for (b, f) in res { wrong += b; if first.is_none() { first = f; } }
 		}
 		*stats.entry("reader_lookups_pmtiles_leaves".into()).or_insert(0) += 3 * 8 * per;
-		if wrong > 0 { viol.push(("concurrent-lookup".into(), "pmtiles with leaf directories (21845 tiles): 8 tasks looking up random tiles on one reader".into(), format!("{wrong} lookups got a wrong answer, first: {}", first.unwrap_or_default()))); }
+		*stats.entry("reader_streams_pmtiles_leaves".into()).or_insert(0) += 3 * 2 * 6;
+		if wrong > 0 { viol.push(("concurrent-lookup".into(), "pmtiles with leaf directories (21845 tiles): 8 tasks looking up random tiles and 2 tasks streaming boxes on one reader".into(), format!("{wrong} lookups got a wrong answer, first: {}", first.unwrap_or_default()))); }
 		let _ = std::fs::remove_file(&p);
 	}
 	let nbad = bad.load(Ordering::SeqCst);
